@@ -229,8 +229,9 @@ func (c *chChecker) analyse(fn *ssa.Function, root ssa.Value, nilness int, top b
 	}
 
 	type item struct {
-		b *ssa.BasicBlock
-		s chState
+		b    *ssa.BasicBlock
+		s    chState
+		prev *ssa.BasicBlock
 	}
 	seen := map[string]bool{}
 	init := chState{nilness: nilness, ids: map[ssa.Value]string{}}
@@ -241,11 +242,15 @@ func (c *chChecker) analyse(fn *ssa.Function, root ssa.Value, nilness int, top b
 			}
 		}
 	}
-	work := []item{{fn.Blocks[0], init}}
+	work := []item{{fn.Blocks[0], init, nil}}
 	for len(work) > 0 {
 		it := work[len(work)-1]
 		work = work[:len(work)-1]
-		k := fmt.Sprintf("%d#%s", it.b.Index, it.s.key())
+		pv := -1
+		if it.prev != nil {
+			pv = it.prev.Index
+		}
+		k := fmt.Sprintf("%d<%d#%s", it.b.Index, pv, it.s.key())
 		if seen[k] {
 			continue
 		}
@@ -255,6 +260,30 @@ func (c *chChecker) analyse(fn *ssa.Function, root ssa.Value, nilness int, top b
 			break
 		}
 		states := []chState{it.s.clone()}
+		if trackRes && it.prev != nil {
+			// parallel assignment of the block's phis from the identities before the block
+			pi := -1
+			for k, p := range it.b.Preds {
+				if p == it.prev {
+					pi = k
+				}
+			}
+			if pi >= 0 {
+				newIDs := map[ssa.Value]string{}
+				for _, ins := range it.b.Instrs {
+					phi, ok := ins.(*ssa.Phi)
+					if !ok {
+						break
+					}
+					if trackable(phi.Type()) && pi < len(phi.Edges) {
+						newIDs[phi] = idOf(&states[0], phi.Edges[pi])
+					}
+				}
+				for v, id := range newIDs {
+					states[0].ids[v] = id
+				}
+			}
+		}
 		for idx, ins := range it.b.Instrs {
 			var next []chState
 			for _, s := range states {
@@ -414,7 +443,16 @@ func (c *chChecker) analyse(fn *ssa.Function, root ssa.Value, nilness int, top b
 					}
 				case *ssa.Phi:
 					if trackRes && trackable(x.Type()) {
-						fresh(&s, x, "P"+site)
+						// a phi is the value that flows in along the edge taken
+						pi := -1
+						for k, p := range it.b.Preds {
+							if p == it.prev {
+								pi = k
+							}
+						}
+						if pi < 0 || pi >= len(x.Edges) {
+							fresh(&s, x, "P"+site)
+						} // otherwise set below, for all phis of the block at once
 						outs = []chState{s}
 					}
 				case *ssa.Store:
@@ -455,7 +493,7 @@ func (c *chChecker) analyse(fn *ssa.Function, root ssa.Value, nilness int, top b
 						}
 						if trackRes && len(x.Results) == 1 && trackable(x.Results[0].Type()) {
 							rid := idOf(&s, x.Results[0])
-							if s.lastSent == "" && strings.HasPrefix(rid, "zero:") {
+							if s.lastSent == "" && (strings.HasPrefix(rid, "zero:") || strings.HasPrefix(rid, "const:")) {
 								// nothing assigned, nothing sent
 							} else if rid != s.lastSent || rid == "stale" {
 								report("lastsent", ins, fmt.Sprintf("the value returned (version %s) is not the last value sent (version %q) on a path where the channel is non-nil", rid, s.lastSent))
@@ -498,18 +536,18 @@ func (c *chChecker) analyse(fn *ssa.Function, root ssa.Value, nilness int, top b
 							return true
 						}
 						if set(&tS, eq) {
-							work = append(work, item{it.b.Succs[0], tS})
+							work = append(work, item{it.b.Succs[0], tS, it.b})
 						}
 						if set(&fS, !eq) {
-							work = append(work, item{it.b.Succs[1], fS})
+							work = append(work, item{it.b.Succs[1], fS, it.b})
 						}
 						continue
 					}
 				}
-				work = append(work, item{it.b.Succs[0], tS}, item{it.b.Succs[1], fS})
+				work = append(work, item{it.b.Succs[0], tS, it.b}, item{it.b.Succs[1], fS, it.b})
 			} else {
 				for _, sc := range it.b.Succs {
-					work = append(work, item{sc, s.clone()})
+					work = append(work, item{sc, s.clone(), it.b})
 				}
 			}
 		}
